@@ -8,6 +8,8 @@
    `from_boxed(msg)?` - for a thread-local actor the decode failure is a handler error.        *)
 EXTENDS Trace_Lifecycle
 
+CONSTANT AllowLocalDecodeKill   \* TRUE: the deviation is admitted (and reported); FALSE once thread_local/inner.rs drops
+
 VARIABLES bad,     \* message numbers of this run whose payload does not decode
           flavour  \* "send" | "local": which runtime flavour the probe actor of this run is
 dvars == <<tvars, bad, flavour>>
@@ -24,7 +26,7 @@ DropEv == IntA("decode.dropped", DropBad) /\ ND /\ DSame
 
 \* the deviation: the failed conversion ends the actor like a handler error would
 DevKill(a) ==
-  /\ flavour = "local"
+  /\ AllowLocalDecodeKill /\ flavour = "local"
   /\ ac[a].pc = "gotMsg" /\ Ready(a) /\ NoSig(a) /\ ac[a].curMsg \in bad
   /\ Step(a, Exiting(ac[a], "err", "err", EvtFailed(a, "err")))
 \* no event of its own (the conversion error just propagates): the guard cleanup follows
@@ -32,6 +34,11 @@ DevEv == /\ Live /\ l' = l /\ DSame
          /\ IF Strict THEN Ev.a = "guard.cleanup" /\ Ev.x \in Actors /\ DevKill(Ev.x)
                       ELSE \E a \in Actors : DevKill(a)
          /\ dev' = dev \cup {"LocalDecodeFailureKills"}
+
+\* a thread-local actor that drops (after a fix) may do so without a hook event of its own
+DropSilent == /\ flavour = "local" /\ Live /\ l' = l /\ DSame /\ ND
+              /\ (Strict => Ev.a \notin {"decode.dropped", "guard.cleanup"})
+              /\ \E a \in Actors : DropBad(a)
 
 DCbEnter == CbEnter /\ (Ev.k = "handle" => Ev.m \notin bad)
 
@@ -42,7 +49,7 @@ DEnd == /\ End /\ DSame
              /\ (dev = {} => ac[a].pc = "idle")
 
 DReset == Reset /\ bad' = {} /\ flavour' = "send"
-DNext == \/ DReset \/ PlanEv \/ DropEv \/ DevEv \/ DEnd
+DNext == \/ DReset \/ PlanEv \/ DropEv \/ DropSilent \/ DevEv \/ DEnd
          \/ ((DCbEnter \/ CbExit \/ CbBody \/ EnvEv \/ LoopEv \/ SilentRefuse) /\ DSame)
 DInit == TInit /\ bad = {} /\ flavour = "send"
 DSpec == DInit /\ [][DNext]_dvars
